@@ -38,8 +38,16 @@ def emit(el, sp, plain, digit, rng, depth=0, root=True):
     pre = {"none": "", "m": "m:", "mml": "mml:"}[sp["prefix"]]
     q = "'" if sp["quote"] == "single" else '"'
     attrs = []
-    if root and sp["prefix"] != "none":
-        attrs.append(f"xmlns:{pre[:-1]}={q}{MML_NS}{q}")
+    if root:
+        if sp["prefix"] != "none":
+            attrs.append(f"xmlns:{pre[:-1]}={q}{MML_NS}{q}")
+        elif sp.get("defaultDecl"):
+            attrs.append(f"xmlns={q}{MML_NS}{q}")
+        other = f"xmlns:xlink={q}http://www.w3.org/1999/xlink{q}"
+        if sp.get("otherNs") == "after":
+            attrs.append(other)
+        elif sp.get("otherNs") == "before":
+            attrs.insert(0, other)
     for k, v in el.attrib.items():
         k = mml.strip_ns(k)
         v = v.replace("&", "&amp;").replace("<", "&lt;").replace(q, "&quot;" if q == '"' else "&apos;")
@@ -87,7 +95,7 @@ def emit(el, sp, plain, digit, rng, depth=0, root=True):
 
 
 LOOKALIKE = {"class": ("<mtext>class=&#39;MJX-1&#39; t</mtext>", "<mtext>class='MJX-1' t</mtext>"),
-             "prefix": ("<mtext>see xmlns&#58;foo and xmlns&#58;bar</mtext>", "<mtext>see xmlns:foo and xmlns:bar</mtext>")}
+             "prefix": (f"<mtext>see xmlns&#58;m='{MML_NS}' and xmlns&#58;bar</mtext>", f"<mtext>see xmlns:m='{MML_NS}' and xmlns:bar</mtext>")}
 
 
 def with_lookalike(xml, kind, raw):
@@ -105,6 +113,9 @@ def run(tier):
     asb = C.run_tlc("XmlSurface", "MC_XmlSurface_asbuilt519.cfg", wd, workers=2, timeout=300, coverage=False)
     if asb["violation"] != "KnownNamesResolve":
         raise C.ToolError(f"the entity regex of the pinned commit is not refuted by TLC ({asb['violation']}, {asb['error']})")
+    asb_ns = C.run_tlc("XmlSurface", "MC_XmlSurface_asbuilt_ns.cfg", wd, workers=2, timeout=300, coverage=False)
+    if asb_ns["violation"] != "KnownNamesResolve":
+        raise C.ToolError(f"the namespace declaration rewrite of the pinned commit is not refuted by TLC ({asb_ns['violation']}, {asb_ns['error']})")
     look = C.run_tlc("XmlSurface", "MC_XmlSurface_lookalike.cfg", wd, workers=2, timeout=300, coverage=False)
     if look["violation"] != "TextIsKept":
         raise C.ToolError(f"'token text is kept' is not refuted by TLC for look-alike text ({look['violation']}, {look['error']})")
@@ -140,7 +151,7 @@ def run(tier):
         docs.append((ET.fromstring(x), True, True))
     with_digit = [d for d in docs if d[2]]
     with_plain = [d for d in docs if d[1]]
-    base_sp = {"entity": "raw", "prefix": "none", "space": False, "comment": False, "pi": False, "quote": "single", "mjx": "none", "lookalike": "none"}
+    base_sp = {"entity": "raw", "prefix": "none", "space": False, "comment": False, "pi": False, "quote": "single", "mjx": "none", "lookalike": "none", "defaultDecl": False, "otherNs": "none"}
     pairs = []          # (spelling, base xml, variant xml)
     per = 3 if tier == "quick" else 25
     for si, sp in enumerate(spellings):
@@ -225,7 +236,7 @@ def run(tier):
         "traces_validated_against_impl": len(events),
         "samples": [{"choices": pairs[0][0], "variant": pairs[0][2][:300]}],
         "evaluations": len(events), "distinct_nontrivial": len({(json.dumps(b[1][0], sort_keys=True), S.fp(b[1][1])) if b[0] == "sp" else b[1][1] for b in back}),
-        "rule": "spellings = every state of XmlSurface.tla within 3 rewrites (528), each applied to seeded suite expressions that hold a character with "
+        "rule": "spellings = every state of XmlSurface.tla within 3 rewrites, each applied to seeded suite expressions that hold a character with "
                 "an entity name where the spelling needs one; entities = all names of entities.in against their numeric spelling + 60 unknown names; "
                 "distinct_nontrivial = distinct (spelling, base) pairs + entity names",
         "exhaustive": False, "spellings": len(spellings), "pairs_judged": sum(1 for b in back if b[0] == "sp"), "entities_judged": sum(1 for b in back if b[0] == "en"),
@@ -240,7 +251,7 @@ def run(tier):
 
 def selftest(tier):
     wd = C.workdir("c17_self")
-    sp = {"entity": "named", "prefix": "m", "space": True, "comment": False, "pi": False, "quote": "single", "mjx": "none", "lookalike": "none"}
+    sp = {"entity": "named", "prefix": "m", "space": True, "comment": False, "pi": False, "quote": "single", "mjx": "none", "lookalike": "none", "defaultDecl": False, "otherNs": "none"}
     ev = [{"sp": sp, "res": "ok", "same": 1, "named": 0}, {"sp": sp, "res": "ok", "same": 0, "named": 0}, {"sp": dict(sp, entity="unknown-name"), "res": "ok", "same": 0, "named": 0},
           {"class": "with-digit", "res": "err", "same": 0, "named": 0}, {"class": "unknown", "res": "err", "same": 0, "named": 1}]
     rej, _, _ = C.validate_trace("Trace_Xml", "Trace_Xml.cfg", ev, wd)
